@@ -139,6 +139,11 @@ func init() {
 		fmt.Fprintf(&e.out, "def metricRebuildsFromPods : Bool := %v\n", rebuilds)
 
 		c08ConcFacts(e, la, text)
+		// the priority bands getPriorityClassByPriority compares with (Model/C08Glue.lean classByPriority)
+		for _, n := range []string{"PriorityProdValueMax", "PriorityProdValueMin", "PriorityMidValueMax", "PriorityMidValueMin",
+			"PriorityBatchValueMax", "PriorityBatchValueMin", "PriorityFreeValueMax", "PriorityFreeValueMin"} {
+			e.constInt("apis/extension", n, n)
+		}
 	}
 }
 
